@@ -355,7 +355,8 @@ Qed.
    towards WebVTT - empty lines, white space at the ends of a line, lines that WebVTT reads as another kind of line (NOTE,
    STYLE, Region:, X-TIMESTAMP-MAP prefixes, the arrow), speaker names with '>' '&' or blanks at their ends; towards SSA -
    braces, the sequences backslash-n / backslash-N, white space at the ends of a line, cues without lines, speaker names
-   with a comma (vtt_to_ssa_comma_in_voice_unreadable: the written file is rejected by the SSA reader). *)
+   with a comma (the hypothesis excludes them; since the library fix of finding F1 the writer emits the comma as a semicolon
+   and the text survives: vtt_to_ssa_comma_in_voice_readable). *)
 From Astisub Require Import Model.Ssa Model.ConvSsaVtt Model.ConvVttSsa Proofs.SsaDoc Proofs.ConvSsaVttProofs Proofs.ConvVttSsaProofs.
 Theorem C07_ssa_to_vtt_styled : forall d : adoc,
   doc_repr d -> ssavtt_join_ok d = true -> repr_vdoc (conv_ssa_vtt_m (canon_doc d)) (style_keys d) [] ->
